@@ -1,6 +1,1102 @@
-//! C08 — not built yet.
+//! C08 — on-chain spends lose at most a bounded fee and fund only validated channels.
+//!
+//! One group (`C08Onchain`, Lean model `onchain`): a real `Node` with a configurable policy (max feerate,
+//! dev flag, policy filter, fee velocity control), key-derivation style and allowlist (scripts, xpubs);
+//! random funding / wallet transactions built from a *scenario description* (every output carries the
+//! descriptor it was built from), several channels funded at once (outbound/inbound, push, holder
+//! commitment number 0/1/2, partly through the real validate_holder_commitment path), submitted through
+//! the real `Node::check_onchain_tx` or through `Approve::handle_proposed_onchain` with a recording
+//! approver.  The model receives, per output, the ground truth *by construction* of the scenario
+//! (not by calling can_spend/allowlist_contains), so a wrong classification inside the implementation
+//! shows up as a disagreement; the monitors evaluate the property itself with u128 arithmetic.
+//!
+//! Op lines (one per op):
+//!   node <cfg> <fee-velocity limit msat> <h|d|u>
+//!   tx   <cfg> <now> <version> <ap 0|1|2> <segwit flags|-> <n inputs> <prev v:type,..|-> <uck ..|->
+//!        <n opaths> <chans vout:value:outbound:push:nhc[:r],..|-> <outs desc@path=value,..|->
+//!   cfg = maxFeerate;dev;filter;style;allow-scripts(,);allow-xpubs(,)
+//!   desc = W/<path>/<ty> | F/<n>/<ty> | X<j>/<path>/<ty> | C<c> | C<c>m | R/<len>
 use crate::common::*;
+use lightning_signer::bitcoin::absolute::LockTime;
+use lightning_signer::bitcoin::bip32::{ChildNumber, DerivationPath, Xpriv, Xpub};
+use lightning_signer::bitcoin::hashes::Hash;
+use lightning_signer::bitcoin::key::CompressedPublicKey;
+use lightning_signer::bitcoin::secp256k1::{self, PublicKey, Secp256k1, SecretKey};
+use lightning_signer::bitcoin::transaction::Version;
+use lightning_signer::bitcoin::{
+    Address, Amount, Network, OutPoint, ScriptBuf, Sequence, Transaction, TxIn, TxOut, Txid, Witness,
+};
+use lightning_signer::channel::ChannelId;
+use lightning_signer::lightning::ln::chan_utils::make_funding_redeemscript;
+use lightning_signer::lightning::types::payment::PaymentHash;
+use lightning_signer::node::{Allowable, Node, NodeConfig, NodeServices};
+use lightning_signer::policy::error::ValidationErrorKind;
+use lightning_signer::policy::filter::{FilterResult, FilterRule, PolicyFilter};
+use lightning_signer::policy::simple_validator::{
+    make_default_simple_policy, PolicyDevFlags, SimpleValidatorFactory,
+};
+use lightning_signer::prelude::SendSync;
+use lightning_signer::signer::derive::KeyDerivationStyle;
+use lightning_signer::util::clock::ManualClock;
+use lightning_signer::util::test_utils::*;
+use lightning_signer::util::velocity::{VelocityControl, VelocityControlIntervalType, VelocityControlSpec};
+use std::sync::{Arc, Mutex};
+use std::time::Duration;
+use vls_protocol_signer::approver::Approve;
+
+pub const HARD: u32 = 0x8000_0000;
+pub const NET: Network = Network::Testnet;
+
+pub const TAGS: [&str; 10] = [
+    "policy-onchain-format-standard",
+    "policy-onchain-max-size",
+    "policy-onchain-funding-non-malleable",
+    "policy-onchain-no-unknown-outputs",
+    "policy-onchain-output-match-commitment",
+    "policy-onchain-output-scriptpubkey",
+    "policy-onchain-initial-commitment-countersigned",
+    "policy-onchain-no-fund-inbound",
+    "policy-onchain-no-channel-push",
+    "policy-onchain-fee-range",
+];
+
+// ---------------------------------------------------------------------------------------------
+// scenario language
+
+pub fn parse_path(s: &str) -> Option<Vec<u32>> {
+    if s == "-" || s.is_empty() {
+        return Some(vec![]);
+    }
+    s.split('.')
+        .map(|c| {
+            if let Some(n) = c.strip_suffix('h') {
+                n.parse::<u32>().ok().filter(|n| *n < HARD).map(|n| n | HARD)
+            } else {
+                c.parse::<u32>().ok().filter(|n| *n < HARD)
+            }
+        })
+        .collect()
+}
+pub fn path_str(p: &[u32]) -> String {
+    if p.is_empty() {
+        return "-".into();
+    }
+    p.iter()
+        .map(|c| if c & HARD != 0 { format!("{}h", c & !HARD) } else { c.to_string() })
+        .collect::<Vec<_>>()
+        .join(".")
+}
+pub fn to_dp(p: &[u32]) -> DerivationPath {
+    p.iter().map(|c| ChildNumber::from(*c)).collect::<Vec<_>>().into()
+}
+
+#[derive(Clone, Debug, PartialEq)]
+pub enum Desc {
+    W(Vec<u32>, char),
+    F(u32, char),
+    X(u32, Vec<u32>, char),
+    C(usize, bool),
+    R(usize),
+}
+impl Desc {
+    pub fn parse(s: &str) -> Option<Desc> {
+        let parts: Vec<&str> = s.split('/').collect();
+        let ty = |t: &str| t.chars().next().filter(|c| "wstkh".contains(*c) && t.len() == 1);
+        match parts.as_slice() {
+            ["W", p, t] => Some(Desc::W(parse_path(p)?, ty(t)?)),
+            ["F", n, t] => Some(Desc::F(n.parse().ok()?, ty(t)?)),
+            ["R", n] => Some(Desc::R(n.parse().ok()?)),
+            [x, p, t] if x.starts_with('X') => Some(Desc::X(x[1..].parse().ok()?, parse_path(p)?, ty(t)?)),
+            [c] if c.starts_with('C') => {
+                let (num, m) = match c.strip_suffix('m') {
+                    Some(n) => (n, true),
+                    None => (*c, false),
+                };
+                Some(Desc::C(num[1..].parse().ok()?, m))
+            }
+            _ => None,
+        }
+    }
+    pub fn to_string(&self) -> String {
+        match self {
+            Desc::W(p, t) => format!("W/{}/{}", path_str(p), t),
+            Desc::F(n, t) => format!("F/{}/{}", n, t),
+            Desc::X(j, p, t) => format!("X{}/{}/{}", j, path_str(p), t),
+            Desc::C(c, m) => format!("C{}{}", c, if *m { "m" } else { "" }),
+            Desc::R(n) => format!("R/{}", n),
+        }
+    }
+    /// script length in bytes (determines tx size/weight)
+    fn script_len(&self) -> usize {
+        match self {
+            Desc::W(_, t) | Desc::F(_, t) | Desc::X(_, _, t) => ty_len(*t),
+            Desc::C(..) => 34,
+            Desc::R(n) => *n,
+        }
+    }
+}
+fn ty_len(t: char) -> usize {
+    match t {
+        'w' => 22,
+        's' => 23,
+        'k' => 25,
+        _ => 34,
+    }
+}
+
+#[derive(Clone, Debug)]
+pub struct Cfg {
+    pub max_feerate: u32,
+    pub dev: bool,
+    pub filter: String,
+    pub style: char,
+    pub allow: Vec<String>,
+    pub xpubs: Vec<u32>,
+}
+impl Cfg {
+    fn parse(s: &str) -> Option<Cfg> {
+        let p: Vec<&str> = s.split(';').collect();
+        if p.len() != 6 {
+            return None;
+        }
+        let list = |x: &str| -> Vec<String> {
+            if x == "-" || x.is_empty() { vec![] } else { x.split(',').map(|s| s.to_string()).collect() }
+        };
+        Some(Cfg {
+            max_feerate: p[0].parse().ok()?,
+            dev: p[1] == "1",
+            filter: p[2].to_string(),
+            style: p[3].chars().next()?,
+            allow: list(p[4]),
+            xpubs: list(p[5]).iter().map(|s| s.parse().ok()).collect::<Option<Vec<u32>>>()?,
+        })
+    }
+    pub fn to_string(&self) -> String {
+        let l = |v: &Vec<String>| if v.is_empty() { "-".to_string() } else { v.join(",") };
+        format!(
+            "{};{};{};{};{};{}",
+            self.max_feerate,
+            if self.dev { 1 } else { 0 },
+            self.filter,
+            self.style,
+            l(&self.allow),
+            l(&self.xpubs.iter().map(|x| x.to_string()).collect())
+        )
+    }
+    /// filter presets: d = default; p = permissive; w<k> = warn exactly TAGS[k]; x = warn prefix "policy-onchain-"
+    pub fn policy_filter(&self) -> PolicyFilter {
+        match self.filter.as_str() {
+            "d" => PolicyFilter::default(),
+            "p" => PolicyFilter::new_permissive(),
+            "x" => PolicyFilter {
+                rules: vec![FilterRule { tag: "policy-onchain-".into(), is_prefix: true, action: FilterResult::Warn }],
+            },
+            s if s.starts_with('w') => {
+                let k: usize = s[1..].parse().unwrap_or(0) % TAGS.len();
+                PolicyFilter { rules: vec![FilterRule { tag: TAGS[k].into(), is_prefix: false, action: FilterResult::Warn }] }
+            }
+            _ => PolicyFilter::default(),
+        }
+    }
+    fn filter_bits(&self) -> Vec<bool> {
+        let f = self.policy_filter();
+        TAGS.iter().map(|t| f.filter(t) == FilterResult::Error).collect()
+    }
+    /// the opt-outs the property excludes: a filter demoting one of the tags the argument needs, or the dev flag
+    fn strict(&self) -> bool {
+        let b = self.filter_bits();
+        !self.dev && b[2..].iter().all(|x| *x)
+    }
+}
+
+#[derive(Clone, Debug)]
+pub struct ChanSpec {
+    vout: usize,
+    value: u64,
+    outbound: bool,
+    push_msat: u64,
+    nhc: u64,
+    real: bool,
+}
+#[derive(Clone, Debug)]
+pub struct OutSpec {
+    desc: Desc,
+    path: Vec<u32>,
+    value: u64,
+}
+#[derive(Clone, Debug)]
+pub struct TxSpec {
+    cfg: Cfg,
+    now: u64,
+    version: i32,
+    ap: u8,
+    segwit: Vec<bool>,
+    n_in: usize,
+    prev: Vec<(u64, char)>,
+    uck: Vec<Option<Vec<usize>>>,
+    n_opaths: usize,
+    chans: Vec<ChanSpec>,
+    outs: Vec<OutSpec>,
+}
+fn list(s: &str) -> Vec<&str> {
+    if s == "-" || s.is_empty() { vec![] } else { s.split(',').collect() }
+}
+impl TxSpec {
+    fn parse(t: &[&str]) -> Option<TxSpec> {
+        if t.len() != 12 || t[0] != "tx" {
+            return None;
+        }
+        let cfg = Cfg::parse(t[1])?;
+        let segwit = if t[5] == "-" { vec![] } else { t[5].chars().map(|c| c == '1').collect() };
+        let prev = list(t[7])
+            .iter()
+            .map(|s| {
+                let (v, ty) = s.split_once(':')?;
+                Some((v.parse().ok()?, ty.chars().next()?))
+            })
+            .collect::<Option<Vec<_>>>()?;
+        let uck = list(t[8])
+            .iter()
+            .map(|s| {
+                if *s == "N" {
+                    Some(None)
+                } else if let Some(r) = s.strip_prefix('S') {
+                    if r.is_empty() {
+                        Some(Some(vec![]))
+                    } else {
+                        r.split('+').map(|x| x.parse().ok()).collect::<Option<Vec<usize>>>().map(Some)
+                    }
+                } else {
+                    None
+                }
+            })
+            .collect::<Option<Vec<_>>>()?;
+        let chans = list(t[10])
+            .iter()
+            .map(|s| {
+                let p: Vec<&str> = s.split(':').collect();
+                if p.len() < 5 {
+                    return None;
+                }
+                Some(ChanSpec {
+                    vout: p[0].parse().ok()?,
+                    value: p[1].parse().ok()?,
+                    outbound: p[2] == "1",
+                    push_msat: p[3].parse().ok()?,
+                    nhc: p[4].parse().ok()?,
+                    real: p.get(5) == Some(&"r"),
+                })
+            })
+            .collect::<Option<Vec<_>>>()?;
+        let outs = list(t[11])
+            .iter()
+            .map(|s| {
+                let (d, rest) = s.split_once('@')?;
+                let (p, v) = rest.split_once('=')?;
+                Some(OutSpec { desc: Desc::parse(d)?, path: parse_path(p)?, value: v.parse().ok()? })
+            })
+            .collect::<Option<Vec<_>>>()?;
+        Some(TxSpec {
+            cfg,
+            now: t[2].parse().ok()?,
+            version: t[3].parse().ok()?,
+            ap: t[4].parse().ok()?,
+            segwit,
+            n_in: t[6].parse().ok()?,
+            prev,
+            uck,
+            n_opaths: t[9].parse().ok()?,
+            chans,
+            outs,
+        })
+    }
+    fn to_line(&self) -> String {
+        let j = |v: Vec<String>| if v.is_empty() { "-".to_string() } else { v.join(",") };
+        format!(
+            "tx {} {} {} {} {} {} {} {} {} {} {}",
+            self.cfg.to_string(),
+            self.now,
+            self.version,
+            self.ap,
+            if self.segwit.is_empty() { "-".to_string() } else { self.segwit.iter().map(|b| if *b { '1' } else { '0' }).collect() },
+            self.n_in,
+            j(self.prev.iter().map(|(v, t)| format!("{}:{}", v, t)).collect()),
+            j(self.uck.iter().map(|u| match u {
+                None => "N".to_string(),
+                Some(v) => format!("S{}", v.iter().map(|x| x.to_string()).collect::<Vec<_>>().join("+")),
+            }).collect()),
+            self.n_opaths,
+            j(self.chans.iter().map(|c| format!("{}:{}:{}:{}:{}{}", c.vout, c.value, if c.outbound { 1 } else { 0 }, c.push_msat, c.nhc, if c.real { ":r" } else { "" })).collect()),
+            j(self.outs.iter().map(|o| format!("{}@{}={}", o.desc.to_string(), path_str(&o.path), o.value)).collect()),
+        )
+    }
+    /// opath of output i as handed to the implementation (missing entries: list is shorter)
+    fn opaths(&self) -> Vec<Vec<u32>> {
+        let mut v: Vec<Vec<u32>> = self.outs.iter().map(|o| o.path.clone()).collect();
+        v.resize(self.n_opaths, vec![]);
+        v
+    }
+    /// a transaction of the same shape (script lengths only): size and weight do not depend on keys
+    fn dummy_tx(&self) -> Transaction {
+        Transaction {
+            version: Version(self.version),
+            lock_time: LockTime::ZERO,
+            input: (0..self.n_in).map(|i| mk_txin(i as u32)).collect(),
+            output: self.outs.iter().map(|o| TxOut { value: Amount::from_sat(o.value), script_pubkey: ScriptBuf::from_bytes(vec![0x51; o.desc.script_len()]) }).collect(),
+        }
+    }
+    fn chan_at(&self, vout: usize) -> Option<(usize, &ChanSpec)> {
+        self.chans.iter().enumerate().find(|(_, c)| c.vout == vout)
+    }
+}
+fn mk_txin(i: u32) -> TxIn {
+    let mut h = [0x33u8; 32];
+    h[..4].copy_from_slice(&i.to_be_bytes());
+    TxIn {
+        previous_output: OutPoint { txid: Txid::from_slice(&h).unwrap(), vout: i },
+        script_sig: ScriptBuf::new(),
+        sequence: Sequence::ZERO,
+        witness: Witness::default(),
+    }
+}
+
+// ---------------------------------------------------------------------------------------------
+// ground truth by construction
+
+#[derive(Clone, Debug, PartialEq)]
+enum Class {
+    Wallet,
+    Xpub,
+    Script,
+    Channel(usize),
+    Unknown,
+    Bogus,
+    Fault,
+}
+struct Truth {
+    path_len: usize,
+    can_spend: Option<bool>,
+    script_allow: bool,
+    xpub: char, // y n p
+    chan: Option<usize>,
+    script_match: bool,
+}
+fn truth(spec: &TxSpec, i: usize) -> Truth {
+    let o = &spec.outs[i];
+    let cfg = &spec.cfg;
+    let path = spec.opaths().get(i).cloned().unwrap_or_default();
+    let can_spend = if path.is_empty() {
+        Some(false)
+    } else if cfg.style == 'n' && path.len() != 1 {
+        None
+    } else {
+        Some(matches!(&o.desc, Desc::W(p, t) if *p == path && "wst".contains(*t)))
+    };
+    let script_allow = cfg.allow.iter().any(|a| *a == o.desc.to_string());
+    let hardened = path.iter().any(|c| c & HARD != 0);
+    let xpub = if cfg.xpubs.is_empty() || path.is_empty() {
+        'n'
+    } else if hardened {
+        'p'
+    } else if matches!(&o.desc, Desc::X(j, p, t) if cfg.xpubs.contains(j) && *p == path && "wkt".contains(*t)) {
+        'y'
+    } else {
+        'n'
+    };
+    let chan = spec.chan_at(i).map(|(k, _)| k);
+    let script_match = match (chan, &o.desc) {
+        (Some(k), Desc::C(c, false)) => *c == k,
+        _ => false,
+    };
+    Truth { path_len: path.len(), can_spend, script_allow, xpub, chan, script_match }
+}
+fn classify(t: &Truth) -> Class {
+    if t.path_len > 0 {
+        match t.can_spend {
+            None => Class::Fault,
+            Some(true) => Class::Wallet,
+            Some(false) => {
+                if t.script_allow {
+                    Class::Script
+                } else {
+                    match t.xpub {
+                        'p' => Class::Fault,
+                        'y' => Class::Xpub,
+                        _ => Class::Bogus,
+                    }
+                }
+            }
+        }
+    } else if t.script_allow {
+        Class::Script
+    } else if let Some(k) = t.chan {
+        Class::Channel(k)
+    } else {
+        Class::Unknown
+    }
+}
+
+// ---------------------------------------------------------------------------------------------
+// real objects
+
+pub fn foreign_key(n: u32) -> PublicKey {
+    let secp = Secp256k1::new();
+    let mut b = [0x11u8; 32];
+    b[..4].copy_from_slice(&(n + 1).to_be_bytes());
+    PublicKey::from_secret_key(&secp, &SecretKey::from_slice(&b).unwrap())
+}
+pub fn ext_xpub(j: u32) -> Xpub {
+    let secp = Secp256k1::new();
+    let seed = [(j as u8).wrapping_add(50); 32];
+    Xpub::from_priv(&secp, &Xpriv::new_master(NET, &seed).unwrap())
+}
+pub fn key_script(pk: &PublicKey, ty: char) -> ScriptBuf {
+    let secp = Secp256k1::new();
+    let cpk = CompressedPublicKey(*pk);
+    match ty {
+        'w' => Address::p2wpkh(&cpk, NET).script_pubkey(),
+        's' => Address::p2shwpkh(&cpk, NET).script_pubkey(),
+        'k' => Address::p2pkh(cpk, NET).script_pubkey(),
+        't' => Address::p2tr(&secp, secp256k1::XOnlyPublicKey::from(*pk), None, NET).script_pubkey(),
+        _ => {
+            let mut ws = vec![33u8];
+            ws.extend_from_slice(&pk.serialize());
+            ws.push(0xac);
+            Address::p2wsh(&ScriptBuf::from_bytes(ws), NET).script_pubkey()
+        }
+    }
+}
+fn prev_script(ty: char, i: usize) -> ScriptBuf {
+    if ty == 'i' {
+        return ScriptBuf::from_bytes(vec![0x6a, 0x01, i as u8]);
+    }
+    key_script(&foreign_key(1000 + i as u32), ty)
+}
+
+struct Env {
+    node_ctx: TestNodeContext,
+    clock: Arc<ManualClock>,
+    cfg: Cfg,
+    spec: VelocityControlSpec,
+    log: Vec<(u64, u64)>,
+    chan_ctr: usize,
+    dead: bool,
+}
+
+fn desc_script(env: &Env, d: &Desc, chan_ids: &[(ChannelId, lightning_signer::channel::ChannelSetup)]) -> ScriptBuf {
+    let secp = Secp256k1::new();
+    match d {
+        Desc::W(p, t) => {
+            let x = env.node_ctx.node.get_account_extended_key().derive_priv(&secp, &to_dp(p)).unwrap();
+            key_script(&PublicKey::from_secret_key(&secp, &x.private_key), *t)
+        }
+        Desc::F(n, t) => key_script(&foreign_key(*n), *t),
+        Desc::X(j, p, t) => key_script(&ext_xpub(*j).derive_pub(&secp, &to_dp(p)).unwrap().public_key, *t),
+        Desc::R(n) => {
+            let mut v = vec![0x51u8; *n];
+            if *n > 0 {
+                v[0] = 0x6a;
+            }
+            ScriptBuf::from_bytes(v)
+        }
+        Desc::C(c, mutated) => {
+            let (id, setup) = &chan_ids[*c % chan_ids.len().max(1)];
+            let holder = env.node_ctx.node.with_channel_base(id, |b| Ok(b.get_channel_basepoints().funding_pubkey)).unwrap();
+            let other = if *mutated { foreign_key(777) } else { setup.counterparty_points.funding_pubkey };
+            Address::p2wsh(&make_funding_redeemscript(&holder, &other), NET).script_pubkey()
+        }
+    }
+}
+pub fn allow_script(env_node: &Node, s: &str) -> Option<ScriptBuf> {
+    let secp = Secp256k1::new();
+    match Desc::parse(s)? {
+        Desc::W(p, t) => {
+            let x = env_node.get_account_extended_key().derive_priv(&secp, &to_dp(&p)).ok()?;
+            Some(key_script(&PublicKey::from_secret_key(&secp, &x.private_key), t))
+        }
+        Desc::F(n, t) => Some(key_script(&foreign_key(n), t)),
+        Desc::X(j, p, t) => Some(key_script(&ext_xpub(j).derive_pub(&secp, &to_dp(&p)).ok()?.public_key, t)),
+        Desc::R(n) => {
+            let mut v = vec![0x51u8; n];
+            if n > 0 {
+                v[0] = 0x6a;
+            }
+            Some(ScriptBuf::from_bytes(v))
+        }
+        Desc::C(..) => None,
+    }
+}
+
+fn itype(s: &str) -> VelocityControlIntervalType {
+    match s {
+        "h" => VelocityControlIntervalType::Hourly,
+        "d" => VelocityControlIntervalType::Daily,
+        _ => VelocityControlIntervalType::Unlimited,
+    }
+}
+
+fn make_env(cfg: &Cfg, limit: u64, ty: &str) -> Env {
+    let mut policy = make_default_simple_policy(NET);
+    policy.max_feerate_per_kw = cfg.max_feerate;
+    policy.dev_flags = if cfg.dev { Some(PolicyDevFlags { disable_beneficial_balance_checks: true }) } else { None };
+    policy.filter = cfg.policy_filter();
+    let spec = VelocityControlSpec { limit_msat: limit, interval_type: itype(ty) };
+    policy.fee_velocity_control = spec;
+    let clock = Arc::new(ManualClock::new(Duration::from_secs(1_600_000_000)));
+    let services = NodeServices {
+        validator_factory: Arc::new(SimpleValidatorFactory::new_with_policy(policy)),
+        starting_time_factory: make_genesis_starting_time_factory(NET),
+        persister: Arc::new(lightning_signer::persist::DummyPersister {}),
+        clock: clock.clone(),
+        trusted_oracle_pubkeys: vec![],
+    };
+    let config = NodeConfig {
+        network: NET,
+        key_derivation_style: if cfg.style == 'l' { KeyDerivationStyle::Ldk } else { KeyDerivationStyle::Native },
+        use_checkpoints: false,
+        allow_deep_reorgs: false,
+    };
+    let mut seed = [0u8; 32];
+    seed.copy_from_slice(&hex::decode(TEST_SEED[1]).unwrap());
+    let node0 = Node::new(config, &seed, vec![], services.clone());
+    let mut allow: Vec<Allowable> = cfg.allow.iter().filter_map(|s| allow_script(&node0, s)).map(Allowable::Script).collect();
+    for j in &cfg.xpubs {
+        allow.push(Allowable::XPub(ext_xpub(*j)));
+    }
+    let node = Arc::new(Node::new(config, &seed, allow, services));
+    Env {
+        node_ctx: TestNodeContext { node, secp_ctx: Secp256k1::signing_only() },
+        clock,
+        cfg: cfg.clone(),
+        spec,
+        log: vec![],
+        chan_ctr: 0,
+        dead: false,
+    }
+}
+
+fn vc_digest(v: &VelocityControl) -> String {
+    let b: Vec<String> = v.buckets.iter().map(|x| x.to_string()).collect();
+    format!("{} [{}]", v.start_sec, b.join(","))
+}
+
+/// same oracle as C12: worst closed window of length `w` over the approved (time, amount) log
+fn window_violation(log: &[(u64, u64)], w: u64, limit: u64) -> Option<(u64, u128)> {
+    for (t0, _) in log.iter() {
+        let sum: u128 = log.iter().filter(|(t, _)| *t >= *t0 && *t - *t0 <= w).map(|(_, a)| *a as u128).sum();
+        if sum > limit as u128 {
+            return Some((*t0, sum));
+        }
+    }
+    None
+}
+
+struct RecApprover {
+    approve: bool,
+    seen: Mutex<Option<Vec<usize>>>,
+}
+impl SendSync for RecApprover {}
+impl Approve for RecApprover {
+    fn approve_invoice(&self, _invoice: &lightning_signer::invoice::Invoice) -> bool {
+        false
+    }
+    fn approve_keysend(&self, _payment_hash: PaymentHash, _amount_msat: u64) -> bool {
+        false
+    }
+    fn approve_onchain(&self, _tx: &Transaction, _prev_outs: &[TxOut], unknown_indices: &[usize]) -> bool {
+        *self.seen.lock().unwrap() = Some(unknown_indices.to_vec());
+        self.approve
+    }
+}
+
+pub struct C08Onchain;
+
+impl C08Onchain {
+    fn exec_tx(&self, env: &mut Env, spec: &TxSpec, at: usize, co: &mut CaseOut) -> String {
+        let node = env.node_ctx.node.clone();
+        // channel stubs first (their funding keys are needed for the output scripts)
+        let mut chans: Vec<TestChannelContext> = Vec::new();
+        for c in &spec.chans {
+            env.chan_ctr += 1;
+            let mut ctx = test_chan_ctx_with_push_val(&env.node_ctx, 1000 + env.chan_ctr, c.value, c.push_msat);
+            ctx.setup.is_outbound = c.outbound;
+            chans.push(ctx);
+        }
+        let ids: Vec<_> = chans.iter().map(|c| (c.channel_id.clone(), c.setup.clone())).collect();
+        let outputs: Vec<TxOut> = spec
+            .outs
+            .iter()
+            .map(|o| TxOut { value: Amount::from_sat(o.value), script_pubkey: desc_script(env, &o.desc, &ids) })
+            .collect();
+        let tx = Transaction {
+            version: Version(spec.version),
+            lock_time: LockTime::ZERO,
+            input: (0..spec.n_in).map(|i| mk_txin(i as u32)).collect(),
+            output: outputs,
+        };
+        for (k, c) in spec.chans.iter().enumerate() {
+            if let Some(st) = funding_tx_setup_channel(&env.node_ctx, &mut chans[k], &tx, c.vout as u32) {
+                return format!("harness-setup-failed {}", st.message());
+            }
+            if c.real {
+                let mut commit = channel_initial_holder_commitment(&env.node_ctx, &chans[k]);
+                let (csig, hsigs) = counterparty_sign_holder_commitment(&env.node_ctx, &chans[k], &mut commit);
+                if let Err(e) = validate_holder_commitment(&env.node_ctx, &chans[k], &commit, &csig, &hsigs) {
+                    return format!("harness-setup-failed validate_holder_commitment {}", e.message());
+                }
+                co.tags.insert("chan:real-initial-commitment".into());
+            } else {
+                let nhc = c.nhc;
+                node.with_channel(&chans[k].channel_id, |ch| {
+                    ch.enforcement_state.set_next_holder_commit_num_for_testing(nhc);
+                    Ok(())
+                })
+                .unwrap();
+            }
+        }
+        let prev_outs: Vec<TxOut> = spec
+            .prev
+            .iter()
+            .enumerate()
+            .map(|(i, (v, t))| TxOut { value: Amount::from_sat(*v), script_pubkey: prev_script(*t, i) })
+            .collect();
+        let ucks: Vec<Option<(SecretKey, Vec<Vec<u8>>)>> = spec
+            .uck
+            .iter()
+            .map(|u| u.as_ref().map(|lens| (SecretKey::from_slice(&[7u8; 32]).unwrap(), lens.iter().map(|l| vec![0u8; *l]).collect())))
+            .collect();
+        let opaths: Vec<DerivationPath> = spec.opaths().iter().map(|p| to_dp(p)).collect();
+        env.clock.set(Duration::from_secs(spec.now));
+
+        // ---- the call under test
+        let approver = RecApprover { approve: spec.ap == 1, seen: Mutex::new(None) };
+        let node2 = node.clone();
+        let r = std::panic::catch_unwind(std::panic::AssertUnwindSafe(|| {
+            if spec.ap == 0 {
+                (Some(node2.check_onchain_tx(&tx, &spec.segwit, &prev_outs, &ucks, &opaths)), None)
+            } else {
+                (None, Some(approver.handle_proposed_onchain(&node2, &tx, &spec.segwit, &prev_outs, &ucks, &opaths)))
+            }
+        }));
+        let (class, unknown_reported): (String, Option<Vec<usize>>) = match r {
+            Err(_) => {
+                env.dead = true;
+                co.tags.insert("res:panic".into());
+                return "panic".into();
+            }
+            Ok((Some(Ok(())), _)) => ("ok".into(), None),
+            Ok((Some(Err(ve)), _)) => match &ve.kind {
+                ValidationErrorKind::UnknownDestinations(_, ix) => ("unknown".into(), Some(ix.clone())),
+                _ => (format!("err:{}", ve.tag), None),
+            },
+            Ok((_, Some(res))) => {
+                let seen = approver.seen.lock().unwrap().clone();
+                match (res, seen) {
+                    (Ok(b), Some(ix)) => {
+                        if b != (spec.ap == 1) {
+                            co.violations.push(Violation { kind: "approver-decision-ignored".into(), desc: format!("approver said {} but handle_proposed_onchain returned {}", spec.ap == 1, b), at });
+                        }
+                        co.tags.insert(format!("approver:{}", if b { "approved" } else { "declined" }));
+                        ("unknown".into(), Some(ix))
+                    }
+                    (Ok(true), None) => ("ok".into(), None),
+                    (Ok(false), None) => {
+                        co.violations.push(Violation { kind: "approver-decision-ignored".into(), desc: "handle_proposed_onchain returned false without consulting the approver".into(), at });
+                        ("declined-unasked".into(), None)
+                    }
+                    (Err(_), _) => ("err:*".into(), None),
+                }
+            }
+            Ok((None, None)) => unreachable!(),
+        };
+        let vcd = vc_digest(&node.get_state().fee_velocity_control);
+        co.tags.insert(format!("res:{}", class.split(':').next().unwrap()));
+        if class.starts_with("err:policy") {
+            co.tags.insert(class.clone());
+        }
+
+        // ---- monitors (property evaluated directly, u128 arithmetic, ground truth by construction)
+        let truths: Vec<Truth> = (0..spec.outs.len()).map(|i| truth(spec, i)).collect();
+        let classes: Vec<Class> = truths.iter().map(classify).collect();
+        for c in &classes {
+            co.tags.insert(format!("class:{}", match c { Class::Channel(_) => "Channel".to_string(), x => format!("{:?}", x) }));
+        }
+        let strict = env.cfg.strict();
+        let unknown_truth: Vec<usize> = classes.iter().enumerate().filter(|(_, c)| **c == Class::Unknown).map(|(i, _)| i).collect();
+        if strict {
+            if let Some(ix) = &unknown_reported {
+                if *ix != unknown_truth {
+                    co.violations.push(Violation { kind: "unknown-indices-wrong".into(), desc: format!("reported unknown outputs {:?}, really unknown {:?}", ix, unknown_truth), at });
+                }
+            }
+        }
+        if class == "ok" {
+            let sum_in: u128 = spec.prev.iter().map(|(v, _)| *v as u128).sum();
+            let mut ben: u128 = 0;
+            for (i, c) in classes.iter().enumerate() {
+                match c {
+                    Class::Wallet | Class::Xpub | Class::Script => ben += spec.outs[i].value as u128,
+                    Class::Channel(k) => ben += (spec.chans[*k].value as u128).saturating_sub((spec.chans[*k].push_msat / 1000) as u128),
+                    _ => {}
+                }
+            }
+            let nb = sum_in.saturating_sub(ben);
+            if strict {
+                for (i, c) in classes.iter().enumerate() {
+                    match c {
+                        Class::Unknown | Class::Bogus | Class::Fault => co.violations.push(Violation {
+                            kind: "unknown-output-accepted".into(),
+                            desc: format!("output {} ({} sat, {}) is neither wallet, allowlisted nor a funded channel ({:?}) but the tx was accepted", i, spec.outs[i].value, spec.outs[i].desc.to_string(), c),
+                            at,
+                        }),
+                        Class::Channel(k) => {
+                            let ch = &spec.chans[*k];
+                            let mut bad = vec![];
+                            if spec.outs[i].value != ch.value { bad.push("channel-funding-wrong-value"); }
+                            if !truths[i].script_match { bad.push("channel-funding-wrong-script"); }
+                            if !ch.outbound { bad.push("channel-funding-inbound"); }
+                            if ch.push_msat / 1000 > 0 { bad.push("channel-funding-with-push"); }
+                            if ch.nhc != 1 && !ch.real { bad.push("channel-funding-not-countersigned"); }
+                            if !(spec.segwit.len() == spec.n_in && spec.segwit.iter().all(|b| *b)) { bad.push("funding-non-segwit-input-accepted"); }
+                            for b in bad {
+                                co.violations.push(Violation { kind: b.into(), desc: format!("accepted funding output {} = {} sat for channel {:?}", i, spec.outs[i].value, ch), at });
+                            }
+                        }
+                        _ => {}
+                    }
+                }
+                // weight lower bound recomputed independently
+                let mut w: u128 = tx.weight().to_wu() as u128;
+                for (i, u) in spec.uck.iter().enumerate() {
+                    if spec.prev.get(i).map(|(_, t)| *t != 'i').unwrap_or(false) {
+                        w += 77 + match u { None => 33u128, Some(l) => l.iter().map(|x| 1 + *x as u128).sum() };
+                    }
+                }
+                if env.cfg.max_feerate < u32::MAX && w > 0 && (nb * 1000 + 999) / w > env.cfg.max_feerate as u128 {
+                    co.violations.push(Violation {
+                        kind: "onchain-fee-exceeds-bound".into(),
+                        desc: format!("accepted: inputs {} - beneficial {} = {} sat over weight {} is {} sat/kw > max {}", sum_in, ben, nb, w, (nb * 1000 + 999) / w, env.cfg.max_feerate),
+                        at,
+                    });
+                }
+                if ben > sum_in {
+                    co.tags.insert("accepted:beneficial>inputs".into());
+                }
+                // fee velocity
+                let (limit, wlen) = {
+                    let s = node.get_state();
+                    let v = &s.fee_velocity_control;
+                    (v.limit, (v.buckets.len() as u64 - 1) * v.bucket_interval as u64)
+                };
+                let msat = (nb * 1000).min(u64::MAX as u128) as u64;
+                env.log.push((spec.now, msat));
+                if limit != u64::MAX {
+                    if let Some((t0, sum)) = window_violation(&env.log, wlen, limit) {
+                        co.violations.push(Violation { kind: "fee-velocity-exceeded".into(), desc: format!("fees of {} msat approved within window [{}, {}] with limit {}", sum, t0, t0 + wlen, limit), at });
+                    }
+                }
+            }
+        }
+        let _ = env.spec;
+        match (&class[..], unknown_reported) {
+            ("unknown", Some(ix)) => format!("unknown [{}] | {}", ix.iter().map(|x| x.to_string()).collect::<Vec<_>>().join(","), vcd),
+            _ => format!("{} | {}", class, vcd),
+        }
+    }
+}
+
+fn gen_cfg(rng: &mut Rng) -> Cfg {
+    let max_feerate = match rng.below(10) {
+        0 => 25_000,
+        1 => 1000,
+        2 => 253,
+        3 => 0,
+        4 => u32::MAX,
+        _ => 333_333,
+    };
+    let filter = match rng.below(20) {
+        0 => "p".to_string(),
+        1 => "x".to_string(),
+        2 | 3 | 4 => format!("w{}", rng.below(10)),
+        _ => "d".to_string(),
+    };
+    let style = if rng.chance(1, 4) { 'l' } else { 'n' };
+    let mut allow = vec![];
+    for _ in 0..rng.below(4) {
+        let d = match rng.below(6) {
+            0 => Desc::W(vec![rng.below(4) as u32], *rng.pick(&['w', 's', 't'])),
+            1 => Desc::R(*rng.pick(&[3usize, 40])),
+            _ => Desc::F(rng.below(4) as u32, *rng.pick(&['w', 's', 't', 'k', 'h'])),
+        };
+        allow.push(d.to_string());
+    }
+    allow.sort();
+    allow.dedup();
+    let mut xpubs = vec![];
+    for _ in 0..(if rng.chance(1, 2) { rng.below(3) } else { 0 }) {
+        xpubs.push(rng.below(3) as u32);
+    }
+    xpubs.sort();
+    xpubs.dedup();
+    Cfg { max_feerate, dev: rng.chance(1, 15), filter, style, allow, xpubs }
+}
+
+fn gen_tx(rng: &mut Rng, cfg: &Cfg, now: u64) -> TxSpec {
+    let n_in = rng.range(1, 4) as usize;
+    let n_out = match rng.below(10) { 0 => 0, 1 | 2 => 1, 3 | 4 | 5 => 2, 6 | 7 => 3, 8 => 4, _ => 6 } as usize;
+    let mut outs: Vec<OutSpec> = Vec::new();
+    let mut chans: Vec<ChanSpec> = Vec::new();
+    let val = |rng: &mut Rng| -> u64 {
+        match rng.below(12) {
+            0 => 0,
+            1 => 330,
+            2 => u64::MAX - rng.below(3),
+            3 => 1u64 << 63,
+            4 => 21_000_000 * 100_000_000,
+            _ => rng.range(1_000, 5_000_000),
+        }
+    };
+    let wrong_path = |rng: &mut Rng, p: &Vec<u32>, style: char| -> Vec<u32> {
+        match rng.below(6) {
+            0 => vec![],
+            1 => vec![p[0].wrapping_add(1) & !HARD],
+            2 => vec![p[0] | HARD],
+            3 => { let mut q = p.clone(); q.push(0); q }
+            4 if style == 'l' => vec![p[0], 1, 2],
+            _ => vec![(p[0] ^ 1) & !HARD],
+        }
+    };
+    for i in 0..n_out {
+        let k = rng.below(20);
+        let value = val(rng);
+        let o = if k < 6 {
+            // wallet output, correct path most of the time
+            let p = if cfg.style == 'l' && rng.chance(1, 3) { vec![rng.below(3) as u32, rng.below(3) as u32] } else { vec![rng.below(6) as u32] };
+            let ty = *rng.pick(&['w', 'w', 's', 't', 'k', 'h']);
+            let path = if rng.chance(1, 5) { wrong_path(rng, &p, cfg.style) } else { p.clone() };
+            OutSpec { desc: Desc::W(p, ty), path, value }
+        } else if k < 9 {
+            // foreign script: allowlisted if it happens to be in cfg.allow
+            let d = if !cfg.allow.is_empty() && rng.chance(2, 3) { Desc::parse(rng.pick(&cfg.allow[..]).as_str()).unwrap() } else { Desc::F(rng.below(5) as u32, *rng.pick(&['w', 's', 't', 'k', 'h'])) };
+            let path = if rng.chance(1, 6) { vec![rng.below(3) as u32] } else { vec![] };
+            OutSpec { desc: d, path, value }
+        } else if k < 12 {
+            // xpub child
+            let j = if !cfg.xpubs.is_empty() && rng.chance(3, 4) { *rng.pick(&cfg.xpubs) } else { rng.below(4) as u32 };
+            let p = if cfg.style == 'l' && rng.chance(1, 3) { vec![rng.below(3) as u32, rng.below(3) as u32] } else { vec![rng.below(6) as u32] };
+            let ty = *rng.pick(&['w', 'w', 'k', 't', 's']);
+            let path = if rng.chance(1, 5) { wrong_path(rng, &p, cfg.style) } else { p.clone() };
+            OutSpec { desc: Desc::X(j, p, ty), path, value }
+        } else if k < 18 && chans.len() < 3 {
+            // channel funding output
+            let c = chans.len();
+            // setup_channel computes channel_value_sat * 1000 (panics on overflow) and refuses push > value
+            let value = value.min(u64::MAX / 1000 - 1);
+            let cv = match rng.below(8) { 0 => value + 1, 1 => value.saturating_sub(1), _ => value };
+            let outbound = !rng.chance(1, 8);
+            let push = match rng.below(10) { 0 => 999, 1 => 1000, 2 => 5_000_000, _ => 0 };
+            let push = if push > cv.saturating_mul(1000) { 0 } else { push };
+            let nhc = match rng.below(8) { 0 => 0, 1 => 2, _ => 1 };
+            let real = cfg.max_feerate >= 25_000 && cfg.max_feerate < u32::MAX && nhc == 1 && outbound && push == 0 && cv == value && (10_000..=5_000_000).contains(&value) && rng.chance(1, 3);
+            chans.push(ChanSpec { vout: i, value: cv, outbound, push_msat: push, nhc, real });
+            let d = match rng.below(12) { 0 => Desc::C(c, true), 1 => Desc::F(9, 'h'), _ => Desc::C(c, false) };
+            let path = if rng.chance(1, 15) { vec![1] } else { vec![] };
+            OutSpec { desc: d, path, value }
+        } else if k == 18 {
+            OutSpec { desc: Desc::R(if rng.chance(1, 4) { 33_000 } else { *rng.pick(&[3usize, 40]) }), path: vec![], value }
+        } else {
+            OutSpec { desc: Desc::F(rng.below(5) as u32, 'w'), path: vec![], value }
+        };
+        outs.push(o);
+    }
+    let mut spec = TxSpec {
+        cfg: cfg.clone(),
+        now,
+        version: match rng.below(15) { 0 => 1, 1 => 3, _ => 2 },
+        ap: match rng.below(10) { 0 | 1 => 1, 2 => 2, _ => 0 },
+        segwit: (0..n_in).map(|_| !rng.chance(1, 12)).collect(),
+        n_in,
+        prev: vec![],
+        uck: (0..n_in).map(|_| match rng.below(8) { 0 => Some(vec![33]), 1 => Some(vec![0, 71]), 2 => Some(vec![]), _ => None }).collect(),
+        n_opaths: n_out,
+        chans,
+        outs,
+    };
+    if rng.chance(1, 25) { spec.segwit.pop(); }
+    if rng.chance(1, 40) { spec.uck.push(None); }
+    if rng.chance(1, 40) && n_out > 0 { spec.n_opaths = n_out - 1; }
+    // inputs: make the total = beneficial (by construction) + a fee aimed at the feerate edge
+    let mut ben: u128 = 0;
+    for i in 0..spec.outs.len() {
+        match classify(&truth(&spec, i)) {
+            Class::Wallet | Class::Xpub | Class::Script => ben += spec.outs[i].value as u128,
+            Class::Channel(k) => ben += spec.chans[k].value as u128,
+            _ => {}
+        }
+    }
+    let prev_types: Vec<char> = (0..n_in).map(|_| *rng.pick(&['w', 'w', 'w', 's', 't', 'h', 'k', 'i'])).collect();
+    let mut w = spec.dummy_tx().weight().to_wu() as u128;
+    for (i, u) in spec.uck.iter().enumerate() {
+        if prev_types.get(i).map(|t| *t != 'i').unwrap_or(false) {
+            w += 77 + match u { None => 33u128, Some(l) => l.iter().map(|x| 1 + *x as u128).sum() };
+        }
+    }
+    let mf = cfg.max_feerate as u128;
+    let nb_edge = (mf * w) / 1000;
+    let nb: u128 = match rng.below(12) {
+        0 => 0,
+        1 => nb_edge,
+        2 => nb_edge + 1,
+        3 => nb_edge.saturating_sub(1),
+        4 => nb_edge + 2,
+        5 => (253 * w) / 1000,
+        // feerate just above 2^32 sat/kw: the old `as u32` truncation wrapped it to a small accepted value
+        6 => (4_294_967_296u128 * w + 999) / 1000 + rng.below(50) as u128,
+        7 => 25_8000_0000u128 + rng.below(1000) as u128,
+        8 => u64::MAX as u128 / 1000 + rng.below(3) as u128,
+        _ => rng.below((nb_edge + 2) as u64) as u128,
+    };
+    let mut total = (ben + nb).min(u64::MAX as u128 * n_in as u128);
+    // `non_beneficial_sat * 1000` overflowing while the node state lock is held makes the `defer!` in
+    // check_onchain_tx panic again during unwinding, which aborts the process (cannot be caught): keep the
+    // inputs below u64::MAX/1000 whenever the fee-range check cannot refuse first (see notes/C08-C09.md)
+    let fee_check_refuses = !cfg.dev && cfg.filter_bits()[9] && cfg.max_feerate < u32::MAX;
+    if !fee_check_refuses {
+        total = total.min(u64::MAX as u128 / 1000 - 2000);
+    }
+    let mut rest = total;
+    for i in 0..n_in {
+        let v = if i + 1 == n_in { rest.min(u64::MAX as u128) } else { (rng.below(1001) as u128 * rest / 1000).min(u64::MAX as u128) };
+        rest -= v;
+        spec.prev.push((v as u64, prev_types[i]));
+    }
+    if rng.chance(1, 30) { spec.prev.push((rng.below(1000), 'w')); }
+    spec
+}
+
+impl Group for C08Onchain {
+    fn property(&self) -> &'static str { "C08" }
+    fn model(&self) -> Option<&'static str> { Some("onchain") }
+    fn rule(&self) -> &'static str {
+        "real Node (Native/Ldk key derivation, allowlisted scripts and xpubs, max feerate 0..u32::MAX, dev flag, \
+         default/one-tag-warn/prefix-warn/permissive policy filter, fee velocity Hourly/Daily/Unlimited) checking random \
+         transactions with 0-6 outputs (wallet p2wpkh/p2sh-p2wpkh/p2tr/p2pkh/p2wsh with right and wrong paths, \
+         allowlisted and foreign scripts, xpub children, up to 3 channel funding outputs with value/script/outbound/push/ \
+         commitment-number deviations, oversized scripts), 1-4 inputs with values summing to beneficial + a fee aimed at the \
+         max-feerate edge (±1 sat), the old 2^32 sat/kw truncation region and u64 overflow candidates; through \
+         Node::check_onchain_tx or Approve::handle_proposed_onchain; non-trivial = at least one accepted and one refused/reported tx"
+    }
+    fn budget(&self, tier: Tier) -> usize { if tier == Tier::Quick { 2500 } else { 40000 } }
+    fn corpus(&self) -> Vec<Vec<String>> {
+        let c = |s: &str| s.split('|').map(|x| x.to_string()).collect::<Vec<String>>();
+        vec![
+            // the repository's own funding scenario: wallet in, change + channel out
+            c("node 333333;0;d;n;-;- 1000000000 d|tx 333333;0;d;n;-;- 1600000000 2 0 1 1 5000000:w N 2 1:3000000:1:0:1:r W/1/w@1=1999000,C0@-=3000000"),
+            // F5 witness shape: ~25.8 BTC of "fee" wrapped to a small feerate before the saturating fix
+            c("node 333333;0;d;n;-;- 18446744073709551615 u|tx 333333;0;d;n;-;- 1600000000 2 0 1 1 2580000000:w N 1 - W/1/w@1=1000"),
+            // unknown output next to a wallet output, through the approver (declines)
+            c("node 333333;0;d;n;F/1/w;- 1000000000 d|tx 333333;0;d;n;F/1/w;- 1600000000 2 2 1 1 100000:w N 3 - W/1/w@1=50000,F/2/w@-=20000,F/1/w@-=29000"),
+            // inbound / pushed / not yet counter-signed channels
+            c("node 333333;0;d;n;-;- 1000000000 d|tx 333333;0;d;n;-;- 1600000000 2 0 1 1 1001000:w N 1 0:1000000:0:0:1 C0@-=1000000|tx 333333;0;d;n;-;- 1600000001 2 0 1 1 1001000:w N 1 0:1000000:1:5000000:1 C0@-=1000000|tx 333333;0;d;n;-;- 1600000002 2 0 1 1 1001000:w N 1 0:1000000:1:0:0 C0@-=1000000|tx 333333;0;d;n;-;- 1600000003 2 0 0 1 1001000:w N 1 0:1000000:1:0:1 C0@-=1000000"),
+        ]
+    }
+    fn model_line(&self, op: &str) -> Option<String> {
+        let t: Vec<&str> = op.split_whitespace().collect();
+        match t.as_slice() {
+            ["node", _cfg, l, ty] => Some(format!("node {} {}", l, ty)),
+            _ => {
+                let spec = match TxSpec::parse(&t) {
+                    Some(s) => s,
+                    None => return Some("bad-op".into()),
+                };
+                let d = spec.dummy_tx();
+                let bits: String = spec.cfg.filter_bits().iter().map(|b| if *b { '1' } else { '0' }).collect();
+                let j = |v: Vec<String>, sep: &str| if v.is_empty() { "-".to_string() } else { v.join(sep) };
+                let ucks: Vec<String> = spec.uck.iter().enumerate().map(|(i, u)| match spec.prev.get(i) {
+                    None => "P".to_string(),
+                    Some((_, 'i')) => "I".to_string(),
+                    Some(_) => match u { None => "N".to_string(), Some(l) => format!("S{}", l.iter().map(|x| 1 + x).sum::<usize>()) },
+                }).collect();
+                let outs: Vec<String> = (0..spec.outs.len()).map(|i| {
+                    let tr = truth(&spec, i);
+                    let ch = match tr.chan {
+                        None => "-".to_string(),
+                        Some(k) => {
+                            let c = &spec.chans[k];
+                            // the real validation path leaves next_holder_commit_num = 1
+                            format!("{}/{}/{}/{}/{}", c.value, if tr.script_match { 1 } else { 0 }, if c.outbound { 1 } else { 0 }, c.push_msat, if c.real { 1 } else { c.nhc })
+                        }
+                    };
+                    format!("{}:{}:{}:{}:{}:{}", spec.outs[i].value, tr.path_len,
+                        match tr.can_spend { None => "e", Some(true) => "t", Some(false) => "f" },
+                        if tr.script_allow { 1 } else { 0 }, tr.xpub, ch)
+                }).collect();
+                Some(format!("tx {} {} {} {} {} {} {} {} {} {} {} {} {} {}",
+                    if spec.ap == 0 { 0 } else { 1 }, spec.cfg.max_feerate, if spec.cfg.dev { 1 } else { 0 }, bits, spec.now,
+                    spec.version as u32, d.base_size(), d.weight().to_wu(), spec.n_in,
+                    if spec.segwit.is_empty() { "-".to_string() } else { spec.segwit.iter().map(|b| if *b { '1' } else { '0' }).collect() },
+                    j(spec.prev.iter().map(|(v, _)| v.to_string()).collect(), ","),
+                    j(ucks, ","), spec.n_opaths, j(outs, ";")))
+            }
+        }
+    }
+    fn gen_case(&self, rng: &mut Rng, tier: Tier) -> Vec<String> {
+        let cfg = gen_cfg(rng);
+        let (limit, ty) = match rng.below(8) {
+            0 => (5_000_000u64, "h"),
+            1 => (100_000, "d"),
+            2 => (0, "h"),
+            3 => (u64::MAX, "u"),
+            4 => (50_000_000, "h"),
+            _ => (1_000_000_000, "d"),
+        };
+        let mut ops = vec![format!("node {} {} {}", cfg.to_string(), limit, ty)];
+        let n = rng.range(1, if tier == Tier::Quick { 4 } else { 8 });
+        let mut now = 1_600_000_000u64 + rng.below(100_000);
+        for _ in 0..n {
+            now += match rng.below(5) { 0 => 0, 1 => rng.below(300), 2 => 3600, 3 => 86_400, _ => rng.below(4000) };
+            ops.push(gen_tx(rng, &cfg, now).to_line());
+        }
+        ops
+    }
+    fn exec_case(&self, ops: &[String]) -> CaseOut {
+        let mut co = CaseOut::default();
+        let mut env: Option<Env> = None;
+        let (mut acc, mut rej) = (false, false);
+        let trace = std::env::var("VERIF_TRACE").is_ok();
+        for (i, op) in ops.iter().enumerate() {
+            if trace {
+                eprintln!("{}", op);
+            }
+            let t: Vec<&str> = op.split_whitespace().collect();
+            let line = match t.as_slice() {
+                ["node", cfg, l, ty] => match Cfg::parse(cfg) {
+                    Some(cfg) => {
+                        let e = make_env(&cfg, l.parse().unwrap_or(0), ty);
+                        let d = vc_digest(&e.node_ctx.node.get_state().fee_velocity_control);
+                        env = Some(e);
+                        format!("ok {}", d)
+                    }
+                    None => "bad-op".into(),
+                },
+                _ => match (TxSpec::parse(&t), env.as_mut()) {
+                    (Some(spec), Some(e)) if e.dead => { let _ = spec; "dead".into() }
+                    (Some(spec), Some(e)) if spec.cfg.to_string() == e.cfg.to_string() => {
+                        let l = self.exec_tx(e, &spec, i, &mut co);
+                        if l.starts_with("ok") { acc = true } else { rej = true }
+                        l
+                    }
+                    (Some(_), None) => panic!("tx before node (malformed shrunk case)"),
+                    _ => "bad-op".into(),
+                },
+            };
+            co.out.push(line);
+        }
+        co.nontrivial = acc && rej;
+        co
+    }
+}
 
 pub fn groups() -> Vec<Box<dyn Group>> {
-    vec![]
+    vec![Box::new(C08Onchain)]
 }
